@@ -2,7 +2,6 @@ package main
 
 import (
 	"fmt"
-	"go/token"
 	"go/types"
 	"strconv"
 	"strings"
@@ -377,6 +376,44 @@ func init() {
 			return it.ufStr("lower", s, func(l string) string { return strings.ToLower(l) })
 		},
 		P + "vExitThread": func(it *Interp, a []Value) Value { panic(abortPath{}) },
+		P + "vCurProc":    func(it *Interp, a []Value) Value { return int64(it.sch.cur.proc) },
+		P + "vSetProc":    func(it *Interp, a []Value) Value { it.sch.cur.proc = int(a[0].(int64)); return nil },
+		P + "vGoID":       func(it *Interp, a []Value) Value { return int64(it.sch.cur.id) },
+		P + "vKillProc": func(it *Interp, a []Value) Value { // every goroutine of the process stops at once; no deferred call runs
+			p := int(a[0].(int64))
+			self := false
+			for _, t := range it.sch.threads {
+				if t.done || t.proc != p {
+					continue
+				}
+				if t == it.sch.cur {
+					self = true
+				} else {
+					t.killed = true
+				}
+			}
+			if self {
+				panic(abortPath{})
+			}
+			return nil
+		},
+		P + "vClone": func(it *Interp, a []Value) Value { // what marshalling does to a message crossing a process boundary
+			iv := a[0].(IfaceV)
+			return IfaceV{t: iv.t, v: it.deepCopy(iv.v, map[*Obj]*Obj{})}
+		},
+		P + "vCopyInto": func(it *Interp, a []Value) Value { // *dst = deep copy of *src
+			d, s := a[0].(IfaceV).v.(Ptr), a[1].(IfaceV).v.(Ptr)
+			it.store(d, it.deepCopy(it.load(s), map[*Obj]*Obj{}))
+			return nil
+		},
+		P + "vNewLike": func(it *Interp, a []Value) Value { // a fresh zero value of the pointee type of p, as *T in an interface
+			iv := a[0].(IfaceV)
+			pt, ok := iv.t.Underlying().(*types.Pointer)
+			if !ok {
+				it.unsup("vNewLike of non-pointer %s", iv.t)
+			}
+			return IfaceV{t: iv.t, v: Ptr{o: it.newObj(pt.Elem(), it.zero(pt.Elem()))}}
+		},
 		P + "vCountSep": func(it *Interp, a []Value) Value {
 			sep, _ := a[1].(*StrV).isConc()
 			n := 0
@@ -435,25 +472,6 @@ func init() {
 			arg := a[2].(IfaceV).v
 			reply := a[3].(IfaceV).v
 			return it.call(m, []Value{rcvr.v, arg, reply}, nil, nil)
-		},
-		"sync/atomic.AddUint32": func(it *Interp, a []Value) Value {
-			p := a[0].(Ptr)
-			it.visible("atomic", "at"+ptrKey(p))
-			old := it.load(p)
-			nv := it.binop(token.ADD, old, a[1], types.Typ[types.Uint32])
-			it.store(p, nv)
-			return nv
-		},
-		"sync/atomic.LoadUint32": func(it *Interp, a []Value) Value {
-			p := a[0].(Ptr)
-			it.visible("atomic", "at"+ptrKey(p))
-			return it.load(p)
-		},
-		"sync/atomic.StoreUint32": func(it *Interp, a []Value) Value {
-			p := a[0].(Ptr)
-			it.visible("atomic", "at"+ptrKey(p))
-			it.store(p, a[1])
-			return nil
 		},
 		P + "vFillBytes": func(it *Interp, a []Value) Value { // the reader stores s into the backing array of p
 			p := a[0].(SliceV)
@@ -641,4 +659,63 @@ func (it *Interp) and(a, b Value) Value {
 		return a
 	}
 	return &Sym{T: "(and " + a.(*Sym).T + " " + b.(*Sym).T + ")", S: "Bool"}
+}
+
+func (it *Interp) deepCopy(v Value, seen map[*Obj]*Obj) Value {
+	switch x := v.(type) {
+	case Ptr:
+		if x.o == nil {
+			return x
+		}
+		if n, ok := seen[x.o]; ok {
+			return Ptr{o: n, path: x.path}
+		}
+		n := it.newObj(x.o.typ, nil)
+		seen[x.o] = n
+		n.v = it.deepCopy(x.o.v, seen)
+		return Ptr{o: n, path: x.path}
+	case *StructV:
+		n := &StructV{F: make([]Value, len(x.F))}
+		for i, f := range x.F {
+			n.F[i] = it.deepCopy(f, seen)
+		}
+		return n
+	case *ArrayV:
+		n := &ArrayV{E: make([]Value, len(x.E))}
+		for i, f := range x.E {
+			n.E[i] = it.deepCopy(f, seen)
+		}
+		return n
+	case SliceV:
+		if x.arr == nil {
+			return x
+		}
+		if n, ok := seen[x.arr]; ok {
+			return SliceV{arr: n, off: x.off, ln: x.ln, cp: x.cp}
+		}
+		n := it.newObj(x.arr.typ, nil)
+		seen[x.arr] = n
+		switch b := x.arr.v.(type) {
+		case *ByteBuf:
+			n.v = &ByteBuf{s: b.s, n: b.n}
+		case *StrBytes:
+			n.v = &StrBytes{s: b.s}
+		default:
+			n.v = it.deepCopy(x.arr.v, seen)
+		}
+		return SliceV{arr: n, off: x.off, ln: x.ln, cp: x.cp}
+	case IfaceV:
+		return IfaceV{t: x.t, v: it.deepCopy(x.v, seen)}
+	case *MapV:
+		if x == nil {
+			return x
+		}
+		n := &MapV{kt: x.kt, vt: x.vt}
+		for i := range x.keys {
+			n.keys = append(n.keys, x.keys[i])
+			n.vals = append(n.vals, it.deepCopy(x.vals[i], seen))
+		}
+		return n
+	}
+	return v
 }
